@@ -355,3 +355,8 @@ CLAIM = {
     'note': 'trusted: clang 14 front end; gate = branch edge refining the verdict call result into {1,>1}; '
             'pairing compares access paths after substituting single-definition locals',
 }
+
+
+# SESSION7 additions to the claim (clauses added in DESIGN section 12)
+CLAIM['technique'] += '; digest-intact typestate (nothing writes the finalised digest before the comparison, except the nothing-stored case); static inventory restricted to the read path'
+CLAIM['text'] += ' C02-f (extended): the buffer returned by hash_finalize() reaches the comparison unmodified. C02-j: no function on the read path writes an object with static storage.'
